@@ -252,6 +252,12 @@ fn cviol(coll: &Collector, order: u64, sub: &'static str, class: String, case: S
 
 /// Explores one family of operations; violations are filed under `sub`.
 pub fn run_family(ctx: &Ctx, family: &str, sub: &'static str, rep: &mut Report) {
+    run_family_mode(ctx, family, sub, rep, false)
+}
+
+/// `total`: results are not compared, only termination (panic / deadlock / livelock under some
+/// schedule) is reported -- the reading of C01.
+pub fn run_family_mode(ctx: &Ctx, family: &str, sub: &'static str, rep: &mut Report, total: bool) {
     let t0 = std::time::Instant::now();
     let built = match prepare(ctx) {
         Ok(b) => b,
@@ -262,7 +268,11 @@ pub fn run_family(ctx: &Ctx, family: &str, sub: &'static str, rep: &mut Report) 
     };
     let sched_dir = format!("{}/schedules-{}-{}", built.dir, ctx.prop, family);
     let _ = std::fs::remove_dir_all(&sched_dir);
-    let out = match std::process::Command::new(&built.bin).args(["explore", family, &sched_dir]).stderr(std::process::Stdio::null()).output() {
+    let mut hargs = vec!["explore", family, sched_dir.as_str()];
+    if total {
+        hargs.push("--total");
+    }
+    let out = match std::process::Command::new(&built.bin).args(&hargs).stderr(std::process::Stdio::null()).output() {
         Ok(o) => o,
         Err(e) => {
             rep.engine_failures.push(format!("schedule explorer: cannot run the harness: {}", e));
@@ -301,8 +311,8 @@ pub fn run_family(ctx: &Ctx, family: &str, sub: &'static str, rep: &mut Report) 
         let sched = std::fs::read_to_string(f["schedule_file"].as_str().unwrap_or("")).unwrap_or_default();
         let msg = f["message"].as_str().unwrap_or("").replace('\n', " ");
         cviol(&coll, 0, sub,
-              format!("a result depends on the thread schedule (shared mutable state): threads {}", names.join(" || ")),
-              format!("conc:{}:{}:{}", family, combo.join(","), sched.trim()),
+              format!("{}: threads {}", if total { "a call panics, deadlocks or spins under some thread schedule" } else { "a result depends on the thread schedule (shared mutable state)" }, names.join(" || ")),
+              format!("conc:{}{}:{}:{}", family, if total { "+total" } else { "" }, combo.join(","), sched.trim()),
               "every schedule gives each operation its sequential result".into(), msg);
     }
     rep.collector = coll;
@@ -335,9 +345,13 @@ pub fn replay(ctx: &Ctx, sub: &'static str, text: &str, coll: &Collector) {
         return;
     }
     let Ok(built) = prepare(ctx) else { return };
+    let (fam, total) = match parts[1].strip_suffix("+total") {
+        Some(f) => (f, true),
+        None => (parts[1], false),
+    };
     if parts[2] == "sequential" {
         let sched_dir = format!("{}/schedules-replay", built.dir);
-        if let Ok(o) = std::process::Command::new(&built.bin).args(["explore", parts[1], &sched_dir]).stderr(std::process::Stdio::null()).output() {
+        if let Ok(o) = std::process::Command::new(&built.bin).args(["explore", fam, &sched_dir]).stderr(std::process::Stdio::null()).output() {
             let t = String::from_utf8_lossy(&o.stdout);
             if let Some(j) = t.lines().rev().find_map(|l| serde_json::from_str::<Value>(l).ok()) {
                 if let Some(sf) = j["sequential_failure"].as_str() {
@@ -355,11 +369,14 @@ pub fn replay(ctx: &Ctx, sub: &'static str, text: &str, coll: &Collector) {
     if std::fs::write(&file, parts[3]).is_err() {
         return;
     }
-    let mut args = vec!["replay".to_string(), parts[1].to_string()];
+    let mut args = vec!["replay".to_string(), fam.to_string()];
     for k in 0..3 {
         args.push(idx.get(k).map(|s| s.to_string()).unwrap_or_else(|| "-".into()));
     }
     args.push(file);
+    if total {
+        args.push("--total".into());
+    }
     if let Ok(o) = std::process::Command::new(&built.bin).args(&args).stderr(std::process::Stdio::null()).output() {
         let t = String::from_utf8_lossy(&o.stdout);
         if let Some(l) = t.lines().find(|l| l.starts_with("REPRODUCED")) {
